@@ -103,6 +103,26 @@ func (x *exec) verify(res *FuncResult) {
 		x.assume(st, x.evalBool(r.E, env))
 	}
 	x.assumeLemmas(st, con, env)
+	if con.Claims["sigma"] {
+		// C20: name every heap array of the history's own objects at entry, so that "a stored closure does
+		// not touch the history" (A-CLOSURE-FRAME) can be applied to arrays the function reads only later
+		if up := x.p.typesPkg(modulePrefix + "utils"); up != nil {
+			for _, tn := range []string{"History", "HeightChanges", "change"} {
+				obj, _ := up.Scope().Lookup(tn).(*types.TypeName)
+				if obj == nil {
+					continue
+				}
+				if stt, ok := obj.Type().Underlying().(*types.Struct); ok {
+					for i := 0; i < stt.NumFields(); i++ {
+						n, srt := x.fieldArr(obj.Type(), i)
+						x.h.get(st, n, srt)
+					}
+				}
+				n, srt := x.elemArr(obj.Type())
+				x.h.get(st, n, srt)
+			}
+		}
+	}
 	st.reach = x.c.Define("reach.entry", "Bool", st.reach)
 	x.obligs = append(x.obligs, &Oblig{Base: "cover:requires", Kind: "cover", Func: fn.String(), Hyp: st.reach, Goal: "true", Cover: true, C: x.c,
 		pos: fn.Pos(), Pos: x.p.Fset.Position(fn.Pos())})
